@@ -107,6 +107,21 @@ def run(ctx):
         cj = Case(c.cid + "j", c.schema, copy.deepcopy(docs), extra_imports=True, wire="json", fam=c.fam, no_model=dash)
         cy = Case(c.cid + "y", c.schema, copy.deepcopy(docs), extra_imports=True, wire="yaml", fam=c.fam)
         cases += [cj, cy]
+    # the same comparison under tag lists that do not name yaml (yaml.v3 then binds a key to the field whose lower-cased Go name it is): schemas
+    # whose keys are single lower-case words keep the same rules through both decoders
+    import re as _re
+    nt = 0
+    for c in base:
+        names = prop_names(c.schema)
+        if nt >= (24 if ctx.tier == "quick" else 120) or not names or not all(_re.match(r"^[a-z][a-z0-9]*$", k) for k in names):
+            continue
+        if '"$defs"' in json.dumps(c.schema) and not all(_re.match(r"^[A-Za-z][A-Za-z0-9]*$", k) for k in c.schema.get("$defs", {})):
+            continue
+        docs = [d for d in c.docs if in_scope(c, d)]
+        tags = [["json"], ["json", "mapstructure"], ["mapstructure", "json", "toml"]][nt % 3]
+        cases += [Case(c.cid + "tj", c.schema, copy.deepcopy(docs), extra_imports=True, wire="json", fam="tags-without-yaml/" + c.fam, no_model=True, tags=tags),
+                  Case(c.cid + "ty", c.schema, copy.deepcopy(docs), extra_imports=True, wire="yaml", fam="tags-without-yaml/" + c.fam, no_model=True, tags=tags)]
+        nt += 1
     run_cases(ctx, cases, "c17")
     nv = 0
     stats = {"same": 0, "ACC": 0, "REJ": 0}
